@@ -682,6 +682,11 @@ func formatOne(fr *frame, spec string, verb byte, arg value) []value {
 			return out
 		}
 	case *Term:
+		if _, isBasic := x.t.Underlying().(*types.Basic); isBasic {
+			if u, ok := cur.uniqueValue(v); ok {
+				return strBytes(fmt.Sprintf(spec, concreteOf(x.t, u)))
+			}
+		}
 		return []value{cur.tt.Atom(spec+":"+typeName(x.t), v)}
 	}
 	// error / Stringer with symbolic content: call the method and splice
